@@ -85,6 +85,39 @@ CHECKS = {
         note="Trusted: TLC, harness, hooks, ASan/UBSan. 2 peers, queue depths 1..2 after resizing; macro-step grain.",
         technique="TLA+ model checking (TLC) + edge-cover replay (run-to-quiescence steps) through a harness transport",
         ref="DESIGN.md section 4, C09"),
+    "C13": dict(
+        text="TLA+ specs dev/Backtrace.tla (pure per-hop operators: push the receiving pipe id, move words up to the id and at most ttl of "
+             "them, pop the first word to choose the outgoing pipe; header capacity 16 words), dev/Device.tla (one nng_device between raw "
+             "sockets, REQ/REP and SURVEY flavours, raw peers on both sides sending every backtrace shape) and dev/DeviceChain.tla "
+             "(chains of 0..4 devices with 5 ttl values per hop and of 13..17 devices at ttl 14/15, rings of 1..3 devices: a reply returns "
+             "to exactly the original requester with the unchanged payload iff every hop is within its ttl, nothing disconnects a "
+             "well-formed message, rings die out within 15 hops, the header never exceeds its capacity; termination under fairness). "
+             "TLC -simulate behaviours of Device.tla are replayed on a real nng_device between xrep/xreq and xrespondent/xsurveyor.",
+        note="Trusted: TLC, harness, hooks, ASan/UBSan. Chains and rings are composed in the model from the per-hop operators the single "
+             "real device is bound to; the cooked ends (rep.c/respond.c) are bound by C04/C07; pair1 and bus devices are covered by C08/C09 "
+             "hop/origin rules, not by a device replay.",
+        technique="TLA+ model checking (TLC) of per-hop operators, chains and rings + simulation replay on a real device",
+        ref="DESIGN.md section 4, C13"),
+    "C15": dict(
+        text="Every protocol specification (Push, Pull, Pair, Sub, Pub, Bus, Req, Rep, Survey and Rep on the respondent) carries the "
+             "readiness rule of its socket as invariants PollW/PollR (descriptor raised iff the corresponding non-blocking call would "
+             "succeed) and the result of every NNG_FLAG_NONBLOCK call; the driver reads both real descriptors with poll(2) at every "
+             "quiescent point and issues the non-blocking calls (a call that blocks is reported as such).  This check replays all "
+             "protocol behaviours and keeps exactly the divergences in pollw/pollr or in a non-blocking result.",
+        note="Trusted: as for the member checks. Raw sockets using the generic msgq pollables are covered by C18's Msgq spec only. Two open "
+             "known findings (BUS and RESPONDENT refuse every non-blocking send) are pinned by the repository's own tests.",
+        technique="TLA+ model checking (TLC) + replay of all protocol behaviours with poll(2) observation",
+        ref="DESIGN.md section 4, C15"),
+    "C03": dict(
+        text="All replays (data structures and protocols) run under ASan+UBSan with the accounting allocator: after each walk the socket "
+             "is closed and every block must have been returned with the size it was allocated with; completions report whether a "
+             "failed send kept its message and a successful one gave it up; Req.tla carries the ownership ghost of the retained request "
+             "copy (OwnershipOK) incl. option changes between the halves of an exchange; Msgq/Lmq/Pair/Sub resize with queued messages. "
+             "This check replays all of them and keeps exactly the memory-safety, ownership and allocator-balance findings.",
+        note="Trusted: ASan/UBSan, harness/acct.c, TLC, harness. Real transports, dialers/listeners and nng_fini per walk are outside these "
+             "replays (harness transport; one nng_fini per driver process).",
+        technique="TLA+ model checking (TLC) + replay of all behaviours under sanitizers and an accounting allocator",
+        ref="DESIGN.md section 4, C03"),
     "C17": dict(
         text="TLA+ spec data/Msg.tla: nng_msg as two run-length encoded byte strings plus a transcription of the nni_chunk "
              "geometry and buffer content; TLC checks refinement, in-bounds copies, capacity >= length, header <= 64 for all "
